@@ -241,6 +241,9 @@ func (reqDom) Gen(r *gen.R, tier string, emit func(string)) {
 			opName = "reqr" // routed sub-mux + Handler.Listeners
 		} else if r.Chance(1, 4) && (rname == "svc" || strings.HasPrefix(rname, "svc.")) && !strings.Contains(rname, "..") && !strings.HasSuffix(rname, ".") {
 			opName = r.Pick([]string{"req1", "req2", "req3"})
+			if (res.Pattern("svc.*").Matches(rname) || res.Pattern("svc.a.*").Matches(rname)) && r.Bool() {
+				opName = "req4"
+			}
 		}
 		args := []string{opName, subj, pk, r.Pick([]string{"cid1", "c.x", "", "cid1", "c d", "cid2"}), wire.Bool(r.Bool()), params, token,
 			r.Pick([]string{"", "q=1&b=2"}), pat, kinds, pickSet([]string{"m", "*", "set"}), pickSet([]string{"m", "*"}),
@@ -463,6 +466,9 @@ func (reqDom) Exec(a []string) string {
 			owned = []string{"svc.a.>", "svc", "svc.>"}
 		case "req3":
 			owned = []string{"svc.>", "svc", "svc.a.b.c", "svc.*"}
+		case "req4":
+			// owned patterns with single-token wildcards only (no trailing >)
+			owned = []string{"svc.*", "svc.a.*", "svc.zz.sentinel"}
 		}
 		subj, pk, cid, http, params, token, query := a[1], a[2], a[3], a[4] == "T", a[5], a[6], a[7]
 		pat, kinds, call, auth, typ, apply, nls := a[8], a[9], a[10], a[11], a[12], a[13], a[14]
